@@ -1,7 +1,7 @@
 --------------------------- MODULE MC_codec_msgs ---------------------------
 (* C01 generator: every message over boundary ids x commands x ack x types  *)
 (* allowed by the cross-field rules x all payloads of length <= PLen over   *)
-(* {a, ';', ' ', '0', RS} without trailing blank.  TLC checks the laws on each  *)
+(* {a, ';', ' ', '0', RS, NUL} without trailing blank.  TLC checks the laws on each  *)
 (* and prints it with its encoding for the harness.                         *)
 EXTENDS Codec, Json
 CONSTANT PLen
@@ -11,7 +11,7 @@ Nodes == {0, 9, 10, 99, 100, 254, 255}
 Childs == {0, 1, 254, 255}
 Types == { <<48>>, <<51>>, <<52>>, <<49,55>>, <<52,57>>, <<45,53>>,
            <<49,48,48,48,48,48,48,48,48,48,48,48,48,48,48,48,48,48,48,48,48>> }   \* 0 3 4 17 49 -5 10^20
-Chars == {97, 59, 32, 48, 30}
+Chars == {97, 59, 32, 48, 30, 0}
 Payloads == UNION {[1..k -> Chars] : k \in 0..PLen}
 Msgs == {m \in [n : Nodes, c : Childs, cmd : 0..4, ack : {0, 1}, t : Types, p : Payloads] : WellFormedMsg(m)}
 
